@@ -370,6 +370,7 @@ type hOp struct {
 	proto              int // 0 http/1.1, 1 h2c stream
 	host, path, user   string
 	newH2C             bool
+	keyOf              *triple // the Host header is the Transport pool key of this route (computed when the request is sent)
 }
 
 var hDomains = []string{"h.test", "h.test", "H.Test", "*.test", "a.h.test", "*.h.test", "*"}
@@ -385,6 +386,23 @@ func genHistory(g *hx.Gen, n int) []hOp {
 	var open []int64
 	rid := int64(0)
 	for i := 0; i < n; i++ {
+		if len(live) > 0 && g.Chance(0.10) {
+			// a keep-alive request leaves an idle backend connection; then a request whose Host header is
+			// the pool key of that route (no route matches it)
+			t := live[g.Intn(len(live))]
+			h := t.d
+			if strings.HasPrefix(h, "*.") {
+				h = "w" + h[1:]
+			} else if h == "*" {
+				h = "any.org"
+			}
+			r1, r2 := rid+1, rid+2
+			rid += 2
+			tt := t
+			ops = append(ops, hOp{kind: "begin", rid: r1, host: h, path: t.l + "/k", user: t.u}, hOp{kind: "end", rid: r1},
+				hOp{kind: "begin", rid: r2, path: g.Pick([]string{"/", t.l + "/k"}), user: g.Pick([]string{"", t.u}), keyOf: &tt}, hOp{kind: "end", rid: r2})
+			continue
+		}
 		if len(live) > 0 && g.Chance(0.12) {
 			// a route changes hands while a request to it is in flight; afterwards the same request again
 			t := live[g.Intn(len(live))]
@@ -516,6 +534,25 @@ func (w *httpWorld) run(g *hx.Gen, ops []hOp, dist map[string]int) ([]string, er
 			dist["UnRegister"]++
 			out = append(out, fmt.Sprintf("(HUnRegister %s %s %s, HDone)", hx.HxS(o.d), hx.HxS(o.l), hx.HxS(o.u)))
 		case "begin":
+			if o.keyOf != nil {
+				// F-C07d: a Host header that spells the synthetic URL host ("pool key") the Rewrite closure gives
+				// requests of a route.  No route matches such a host: 404, and no backend may be reached even
+				// though an idle keep-alive connection filed under exactly this key may exist.
+				rc := w.rp.GetRouteConfig(o.keyOf.d, o.keyOf.l, o.keyOf.u)
+				if rc == nil {
+					out = append(out, fmt.Sprintf("(HEnd %d, HDone)", o.rid)) // route gone meanwhile: nothing to send
+					continue
+				}
+				o.host = rc.Domain + "." + base64.StdEncoding.EncodeToString([]byte(rc.Location)) + "." +
+					base64.StdEncoding.EncodeToString([]byte(rc.RouteByHTTPUser)) + "." +
+					base64.StdEncoding.EncodeToString(nil) + "." + strconv.FormatUint(vhost.VerifRouteID(rc), 10)
+				if strings.ContainsAny(o.host, "/*") {
+					out = append(out, fmt.Sprintf("(HEnd %d, HDone)", o.rid)) // not a host net/http accepts
+					continue
+				}
+				o.proto = 0
+				dist["request with Host = pool key of a route"]++
+			}
 			before := atomic.LoadInt64(&w.dials)
 			var cc int64
 			proto := o.proto
@@ -615,6 +652,7 @@ func runRouterHTTP(cfg *hx.RunCfg) error {
 			"Definition NREGCONFLICT := Eval vm_compute in sum_cases (http_counter 3) cases.\nPrint NREGCONFLICT.\n" +
 			"Definition NSTALE := Eval vm_compute in sum_cases stale_counter cases.\nPrint NSTALE.\n" +
 			"Definition NDEEPHOST := Eval vm_compute in sum_cases (http_counter 6) cases.\nPrint NDEEPHOST.\n" +
+			"Definition NKEYHOST := Eval vm_compute in sum_cases (http_counter 7) cases.\nPrint NKEYHOST.\n" +
 			"Definition NCONNECT := Eval vm_compute in sum_cases (http_counter 4) cases.\nPrint NCONNECT.\n" +
 			"Definition NVIOL := Eval vm_compute in count_if (fun c => negb (C06_holds c)) cases.\nPrint NVIOL.\n",
 	}
